@@ -237,13 +237,12 @@ macro_rules! c07_inherent {
 }
 macro_rules! c07_clamp_one {
     ($r:expr, $x:expr, $lo:expr, $hi:expr, $prim:tt) => {{
+        // the caller orders the bounds with the harness's own byte comparison (never with bnum)
         let (x, lo, hi) = ($x, $lo, $hi);
-        if lo <= hi {
-            $r.sem = "C07";
-            $r.fam("clamp", vec![int(&x), int(&lo), int(&hi)]);
-            $r.form("ord_clamp", || val(Ord::clamp(x, lo, hi)));
-            c07_clamp_inherent!($r, x, lo, hi, $prim);
-        }
+        $r.sem = "C07";
+        $r.fam("clamp", vec![int(&x), int(&lo), int(&hi)]);
+        $r.form("ord_clamp", || val(Ord::clamp(x, lo, hi)));
+        c07_clamp_inherent!($r, x, lo, hi, $prim);
     }};
 }
 macro_rules! c07_clamp_inherent {
